@@ -89,7 +89,8 @@ class FunctionVerifier:
         self.results = []
         self.paths = 0
         self.info = {}
-        self.findings = findings or []
+        self.findings = [f for f in (findings or []) if f.get("obligation", "").startswith(c.qual + "/")]
+        self.all_findings = findings or []
         self.setup = setup
 
     def build_engine(self):
@@ -98,8 +99,11 @@ class FunctionVerifier:
                   if q != c.qual and q not in c.inline and (c.uses is None or q in c.uses)}
         eng = Engine(self.repo, c.mode, usable, timeout_ms=min(self.timeout_ms, 5000))
         eng.no_contract_for = set(c.inline) | {c.qual}
+        eng.findings = self.all_findings
         for (q, line), spec in c.loops.items() if c.loops else []:
             eng.loop_specs[(q, line)] = spec
+        from .models import install_default_models
+        install_default_models(eng)
         load_spec_env(eng, self.repo, self.spec_modules + ([c.spec_module] if c.spec_module else []))
         if self.setup:
             self.setup(eng)
@@ -163,6 +167,8 @@ class FunctionVerifier:
         spec_env.update(c.env)
         # requires
         pre = st
+        for ax in eng.axioms:
+            pre = pre.assume(ax)
         for req in c.requires:
             pre = pre.assume(eng.spec_bool(pre, req, spec_env, "assume", c.spec_module))
         r = Result(f"{c.qual}/vacuity:requires{('@' + case) if case else ''}", "vacuity")
